@@ -1031,6 +1031,30 @@ C08_ExactlyOneWhenCompleted ==
      \/ rp[r].inv = 0 /\ ws[rp[r].sid].close.code \in {3, 12, 14}
 
 ---------------------------------------------------------------------------
+(* Projection of the observation state used for conformance checking at     *)
+(* quiescent points: the detailed model (Tunnel.tla) and the trace reader   *)
+(* drive this same automaton, so at corresponding quiescent points of a     *)
+(* replayed model behaviour the two projections must be equal.  Counts and  *)
+(* outcomes only (no byte sizes: the model counts in units), sequences and  *)
+(* records only (so that it survives a JSON round trip).                    *)
+MaxOf(S) == IF S = {} THEN 0 ELSE CHOOSE x \in S : \A y \in S : y <= x
+ProjRP(r) ==
+  IF r \notin DOMAIN rp THEN [r |-> 0]
+  ELSE [ r |-> r, sid |-> rp[r].sid, started |-> rp[r].started, startFail |-> rp[r].startFail,
+         okC |-> rp[r].okC, errC |-> rp[r].errC, gotS |-> Len(rp[r].gotS), sEOF |-> rp[r].sEOF,
+         okS |-> rp[r].okS, errS |-> rp[r].errS, gotC |-> Len(rp[r].gotC),
+         cls |-> rp[r].cRes.cls, code |-> rp[r].cRes.code, inv |-> rp[r].inv, cancelled |-> rp[r].cancelled ]
+ProjWS(s) ==
+  IF s \notin DOMAIN ws THEN [s |-> 0]
+  ELSE [ s |-> s, rpc |-> ws[s].rpc, news |-> ws[s].news, cHalf |-> ws[s].cHalf, cCancel |-> ws[s].cCancel,
+         sHdr |-> ws[s].sHdr, sClose |-> ws[s].sClose, ccode |-> ws[s].close.code,
+         newDeliv |-> ws[s].newDeliv, halfDeliv |-> ws[s].halfDeliv, cancelDeliv |-> ws[s].cancelDeliv,
+         hdrDeliv |-> ws[s].hdrDeliv, closeDeliv |-> ws[s].closeDeliv, cMsgsD |-> ws[s].cMsgsD, sMsgsD |-> ws[s].sMsgsD,
+         cliEnd |-> ws[s].cliEnd ]
+ObsProj == [ rp |-> [i \in 1..MaxOf(DOMAIN rp) |-> ProjRP(i)], ws |-> [i \in 1..MaxOf(DOMAIN ws) |-> ProjWS(i)],
+             chdone |-> tun.chdone, serveRet |-> tun.serveRet, shutdown |-> tun.shutdown ]
+
+---------------------------------------------------------------------------
 Formulas == [
   C01_SrvPrefix |-> C01_SrvPrefix, C01_CliPrefix |-> C01_CliPrefix, C01_Intact |-> C01_Intact,
   C01_CompleteAtEOF |-> C01_CompleteAtEOF, C01_CompleteAtOK |-> C01_CompleteAtOK,
